@@ -164,5 +164,56 @@ func (x *xmatrix) render(style string) string {
 		}
 		parts = append(parts, p.n+eq+val)
 	}
+	if style == "extra" { // parameters no receiver knows
+		parts = append(append([]string{"foo=bar"}, parts...), `realm=""`)
+	}
 	return x.scheme + sp + strings.Join(parts, comma)
+}
+
+// renderSplit is the header cut at the comma after its second parameter into two field lines.
+func (x *xmatrix) renderSplit(style string) []string {
+	whole := *x
+	first, rest := whole, whole
+	names := []**string{&first.origin, &first.key, &first.sig, &first.dest}
+	order := []int{0, 1, 2, 3}
+	if style == "reorder" {
+		order = []int{3, 2, 1, 0}
+	}
+	restNames := []**string{&rest.origin, &rest.key, &rest.sig, &rest.dest}
+	for i, idx := range order {
+		if i < 2 {
+			*restNames[idx] = nil
+		} else {
+			*names[idx] = nil
+		}
+	}
+	if style == "extra" {
+		style = "canon"
+	}
+	l2 := rest.render(style)
+	l2 = strings.TrimLeft(strings.TrimPrefix(l2, rest.scheme), " ")
+	return []string{first.render(style), l2}
+}
+
+// sameMessage compares two messages written by HTTPRequest() + Write: request line, body and the set of header lines
+// (with two signatures the order of the Authorization headers is not fixed).
+func sameMessage(a, b []byte) bool {
+	wa, e1 := parseWire(a)
+	wb, e2 := parseWire(b)
+	if e1 != nil || e2 != nil || wa.method != wb.method || wa.uri != wb.uri || !bytes.Equal(wa.body, wb.body) || len(wa.headers) != len(wb.headers) {
+		return false
+	}
+	set := map[hline]int{}
+	for _, h := range wa.headers {
+		set[h]++
+	}
+	for _, h := range wb.headers {
+		set[h]--
+	}
+	for _, n := range set {
+		if n != 0 {
+			return false
+		}
+	}
+	return true
 }
